@@ -443,6 +443,14 @@ type Request struct {
 	// DupOpts: every Option value is passed twice in the one call (an option value is
 	// immutable: applying it a second time sets the same thing).
 	DupOpts bool
+	// PoisonBefore > 0: before the call, one more call on the same input with the same options
+	// (without the recorder) under MaxExpressions(PoisonBefore) - a call that is usually cut
+	// short by the budget - whose result is thrown away. CallAfter: after the call, one more
+	// call through the same entry point on other bytes, before anyone looks at the value.
+	// Neither may change what the call in the middle returns.
+	PoisonBefore uint64
+	CallAfter    bool
+	MemoExtraOK  bool // the extra calls may memoize too (grammars on which every memoizing parse ends)
 	// OptOrder: the option list is rotated by this much and, when odd, reversed (options are
 	// independent setters: the order in which they are given does not matter).
 	OptOrder int
